@@ -18,7 +18,7 @@ import (
 
 func c12Notes(rec *evid.Rec) {
 	rec.Note("rule", "worlds of 1..500 concurrently in-flight transactions (ids share an 11-byte pattern and neighbours differ in single bits), started with Start and Do mixed, answered in a random permutation with duplicates, "+
-		"responses for unknown ids, indications and garbage interleaved, datagrams up to the client's 1024-byte read buffer each carrying a unique payload; several rounds on one client so that pooled transaction / wait-handler objects are recycled; "+
+		"responses for unknown ids, indications, garbage and transient Read errors (the connection stays open) interleaved, datagrams up to the client's 1024-byte read buffer each carrying a unique payload; several rounds on one client so that pooled transaction / wait-handler objects are recycled; "+
 		"with and without a fallback handler. Oracle (lock-step engine of C10): every handler is a distinct closure bound to its transaction; each invocation must carry its own id and exactly the datagram delivered (copied inside the callback) "+
 		"and be the first datagram with that id; unmatched decodable datagrams go to the fallback handler only (nowhere without one); undecodable datagrams cause no invocation and no state change. "+
 		"Non-trivial = >= 2 transactions in flight when a response arrives out of start order, or a world with a recycled pooled object (second or later round); distinct by history.")
@@ -50,6 +50,8 @@ func genC12(rt *rapid.T, maxWidth int) clientCase {
 				c.Ops = append(c.Ops, hop{Op: "respond", ID: base + i, Size: 1024})
 			case 3:
 				c.Ops = append(c.Ops, hop{Op: "garbage", Junk: "000100042112a4425a5a5a5a5a5a5a5a5a5a0000ffff"})
+			case 4:
+				c.Ops = append(c.Ops, hop{Op: "readerr"})
 			}
 			c.Ops = append(c.Ops, hop{Op: "respond", ID: base + i, Size: rapid.SampledFrom([]int{0, 20, 20, 100, 1024}).Draw(rt, "rsize")})
 		}
